@@ -2146,7 +2146,7 @@ fn has_inert(v: &V) -> bool {
 /// follows it leaves a guessed `Position`)?  Off until the proposed line of props/C05.known (class=suspend-position)
 /// is listed in known_findings.txt: every such case is a property failure that the model reproduces.  To switch on:
 /// set this to `true` and rename corpus/C05/F-C05-6-suspend-position.ops.pending to `.ops`.
-const SUSPEND_POSITION_CASES: bool = false;
+const SUSPEND_POSITION_CASES: bool = true;
 
 /// (`HX_C05_ALL=1 c05 gen …` generates the class regardless: used to test the model on it)
 fn position_cases() -> bool {
